@@ -330,8 +330,10 @@ def run_standin(rep, prop, si, open_known, tier, seed):
     from . import harness as H
     t0 = time.time()
     try:
-        stats, failures = H.search(si.contract, si.harness, seed=seed, tier=tier, budget=si.budget.get(tier),
-                                   stop_at_first=False)
+        import contextlib, io
+        with contextlib.redirect_stdout(io.StringIO()):   # the code under test prints progress lines
+            stats, failures = H.search(si.contract, si.harness, seed=seed, tier=tier, budget=si.budget.get(tier),
+                                       stop_at_first=False)
     except Exception as ex:
         rep.errors.append(f"stand-in {si.name}: {type(ex).__name__}: {ex}\n" + traceback.format_exc(limit=6))
         return
